@@ -23,6 +23,7 @@ def showRes : Res Nat → String
   | .data [] => "d0"
   | .data (a :: r) => s!"d{a}+{r.length + 1}"
   | .eof => "eof"
+  | .cut => "cut"
   | .timeout => "t"
   | .closed false => "c0"
   | .closed true => "c1"
